@@ -46,7 +46,7 @@ try:
         meta['tests'] = dict(passed=len(ok), stable_pass_lost=lost[:10], suite_passes=not lost)
         os.unlink(xml)
     # checks against the changed tree
-    which = [f'C{i:02d}' for i in range(1, 21)] if checks == 'all' else checks.split(',')
+    which = [f'C{i:02d}' for i in range(1, 21)] if checks == 'all' else ([] if checks == 'none' else checks.split(','))
     procs = {c: subprocess.Popen(f'VERIF_REPO={wt} {VERIF}/vf check {c}', shell=True, stdout=subprocess.PIPE, stderr=subprocess.STDOUT, text=True) for c in which}
     res = {}
     for c, p in procs.items():
@@ -54,9 +54,12 @@ try:
         viol = [l for l in out.splitlines() if l.startswith('VIOLATION')]
         und = [l for l in out.splitlines() if l.startswith('UNDECIDED') or l.startswith('CHECKER-FAULT')]
         res[c] = dict(exit=p.returncode, violations=len(viol), first=[v.split('#', 1)[-1].strip()[:200] for v in viol[:3]], undecided=len(und), undecided_first=[u[:160] for u in und[:2]])
-    meta['checks'] = res
-    meta['caught_by'] = sorted(c for c, v in res.items() if v['exit'] == 1)
-    meta['own_check_catches'] = res.get(prop, {}).get('exit') == 1
+    if which:
+        meta['checks'] = res
+        meta['caught_by'] = sorted(c for c, v in res.items() if v['exit'] == 1)
+        meta['own_check_catches'] = res.get(prop, {}).get('exit') == 1
+    elif _prev.get('checks'):
+        for k_ in ('checks', 'caught_by', 'own_check_catches'): meta[k_] = _prev.get(k_)
 finally:
     sh(f'git -C /repo worktree remove --force {wt}')
     # the checks above rewrote evidence/replay for the changed tree: evidence must describe /repo itself
